@@ -173,6 +173,8 @@ func (r *Runner) Prop(p *PropSpec) func(*rapid.T) {
 		r.curCtxs = in.ctxs
 		r.mu.Unlock()
 		r.resample(prevCtxs, "after")
+		InvStart()
+		defer InvStop()
 		r.rec.Emit("inv.begin", F{"inv": in.id})
 		r.mu.Lock()
 		ff := r.firstFail
